@@ -9,6 +9,9 @@ package daedns
 import (
 	"encoding/json"
 	"fmt"
+	"go/ast"
+	"go/parser"
+	"go/token"
 	"os"
 	"path/filepath"
 	"strings"
@@ -88,21 +91,65 @@ func (in *s04Input) String(cat string) string {
 type s04Atom struct{ name, key, val string }
 
 type s04Env struct {
-	log   *logrus.Logger
-	ups   map[string]uint8
-	r     *Router
-	atomM map[s04Atom]any
-	stats *VStats
+	log    *logrus.Logger
+	ups    map[string]uint8
+	r      *Router
+	atomM  map[s04Atom]any
+	stats  *VStats
+	stages []string
 }
 
 var s04UpNames = []string{"alidns", "googledns", "cf"}
 
-func (e *s04Env) optimizers() []routing.RulesOptimizer {
-	return []routing.RulesOptimizer{
-		&routing.DatReaderOptimizer{Logger: e.log, LocationFinder: assets.NewLocationFinder(nil)},
-		&routing.MergeAndSortRulesOptimizer{},
-		&routing.DeduplicateParamsOptimizer{},
+// the optimizer list of NewWithOption, read from the source of the repo under test.
+func s04Stages() []string {
+	repo := os.Getenv("VERIF_REPO")
+	if repo == "" {
+		repo = "/repo"
 	}
+	f, err := parser.ParseFile(token.NewFileSet(), filepath.Join(repo, "component/daedns/router.go"), nil, 0)
+	if err != nil {
+		return []string{"parse-error"}
+	}
+	var out []string
+	ast.Inspect(f, func(n ast.Node) bool {
+		call, ok := n.(*ast.CallExpr)
+		if !ok || len(out) > 0 {
+			return true
+		}
+		sel, ok := call.Fun.(*ast.SelectorExpr)
+		if !ok || sel.Sel.Name != "NewNormalizedRequestRoutingProgram" {
+			return true
+		}
+		for _, a := range call.Args {
+			if u, ok := a.(*ast.UnaryExpr); ok {
+				if cl, ok := u.X.(*ast.CompositeLit); ok {
+					if t, ok := cl.Type.(*ast.SelectorExpr); ok {
+						out = append(out, t.Sel.Name)
+					}
+				}
+			}
+		}
+		return true
+	})
+	return out
+}
+
+func (e *s04Env) optimizers() []routing.RulesOptimizer {
+	var out []routing.RulesOptimizer
+	for _, n := range e.stages {
+		switch n {
+		case "AliasOptimizer":
+			out = append(out, &routing.AliasOptimizer{})
+		case "DatReaderOptimizer":
+			out = append(out, &routing.DatReaderOptimizer{Logger: e.log, LocationFinder: assets.NewLocationFinder(nil)})
+		case "MergeAndSortRulesOptimizer":
+			out = append(out, &routing.MergeAndSortRulesOptimizer{})
+		case "DeduplicateParamsOptimizer":
+			out = append(out, &routing.DeduplicateParamsOptimizer{})
+		}
+	}
+	return out
 }
 
 // one category of one normalised program, compiled by the real code.
@@ -553,6 +600,9 @@ func TestVerifC04Sel(t *testing.T) {
 	log.SetLevel(logrus.PanicLevel)
 	env := &s04Env{log: log, ups: map[string]uint8{"alidns": 0, "googledns": 1, "cf": 2}, atomM: map[s04Atom]any{}, stats: stats}
 	env.r = &Router{log: log, upstreams: map[string]*componentdns.UpstreamResolver{"alidns": {}, "googledns": {}, "cf": {}}}
+
+	env.stages = s04Stages()
+	out.emit("pipeline daedns "+s04Tok(strings.Join(env.stages, ",")), "pipeline="+strings.Join(env.stages, ","), s04Descr{Kind: "pipeline", Backend: "daedns", Text: env.stages})
 
 	fixed := []*s04Input{
 		{tag: "my_sub", link: "https://a.example/sub", name: "hk-1", qname: "a.com", qtype: 1},
